@@ -19,7 +19,7 @@ import (
 
 var benignFaults = []string{"resegment", "dribble", "random-cuts", "latency", "jitter", "short-read", "finite-window", "starved-node", "deadline-retry", "preempt"}
 var benignReach = []string{"A1-proto-mismatch", "A2-version", "A3-no-suite", "A4-ecdhe-gm", "A5-missing-certs", "A6-server-verify", "A7-client-auth", "A8-callback-error", "A9-complete",
-	"gm-cbc", "gm-gcm", "tls10", "tls11", "tls12", "client-cert-sent", "callbacks-cert", "getconfigforclient", "payload>=16k", "payload-0", "stdlib-client", "stdlib-server", "wire-decoded", "window-blocked", "timeout-retried", "auto-gm", "auto-tls"}
+	"gm-cbc", "gm-gcm", "tls10", "tls11", "tls12", "client-cert-sent", "callbacks-cert", "getconfigforclient", "payload>=16k", "payload-0", "stdlib-client", "stdlib-server", "wire-decoded", "timeout-retried", "auto-gm", "auto-tls"}
 
 func init() {
 	register(Family{Name: "tls-benign", Prop: "C06", ID: 601, Weight: 1, FaultNames: benignFaults, ReachNames: benignReach, Run: runTLSBenign})
@@ -86,6 +86,7 @@ type benignParams struct {
 	CallbackErr  int // 0 none 1 server cert callback fails 2 client cert callback fails
 	CVerify      int // 0 correct 1 wrong server name 2 wrong roots 3 InsecureSkipVerify
 	SrvChain     int // GM: 0 direct leaf, 1 via intermediate
+	SrvMissing   bool // GMSSL server configured with the signing certificate only
 }
 
 func drawSuiteList(c *simkit.Choice, pool []uint16) []uint16 {
@@ -169,6 +170,10 @@ func drawBenignParams(c *simkit.Choice) benignParams {
 		p.CallbackErr = 1 + c.Choose(2, simkit.LScen)
 	}
 	p.CVerify = c.Weighted([]int{12, 1, 1, 2}, simkit.LScen)
+	if p.CGM && p.SMode != modeTLS && c.Bool(1, 30, simkit.LScen) {
+		p.SrvMissing = true
+		p.SrvCertSrc = 0
+	}
 	// SrvChain (certificates under an intermediate CA) is outside C06's quantifier;
 	// see DESIGN.md "things deliberately not done". Always 0.
 	return p
@@ -231,12 +236,29 @@ func (p *benignParams) model() (verdict int, rule string, vers uint16, suite uin
 		vers = gmtls.VersionGMSSL
 		cl, sl := p.CSuites, p.SSuites
 		if cl == nil || sl == nil {
-			// default lists: content documented only by the code; no prediction of
-			// the selected suite. The default contains the unimplemented ECDHE suites.
-			if p.CallbackErr != 0 {
+			// A default list (nil): its content and order are documented only by the
+			// code. Assumption at documentation level: the default offers both
+			// implemented ECC suites. Hence: both default, or the explicit list holds
+			// an (unimplemented) ECDHE suite -> nothing predicted; explicit list of
+			// ECC suites only -> must complete, and the suite is predicted only when
+			// the explicit list is the preference list.
+			expl := cl
+			explIsPref := !p.PreferServer
+			if cl == nil {
+				expl = sl
+				explIsPref = p.PreferServer
+			}
+			if expl == nil {
 				return vUnspecified, "", vers, 0
 			}
-			suite = 0
+			for _, id := range expl {
+				if id != gmtls.GMTLS_ECC_SM4_CBC_SM3 && id != gmtls.GMTLS_ECC_SM4_GCM_SM3 {
+					return vUnspecified, "", vers, 0
+				}
+			}
+			if explIsPref {
+				suite = expl[0]
+			}
 		} else {
 			pref, other := cl, sl
 			if p.PreferServer {
@@ -297,6 +319,10 @@ func (p *benignParams) model() (verdict int, rule string, vers uint16, suite uin
 			return vFail, "A3-no-suite", 0, 0
 		}
 	}
+	// A5 GMSSL server without an encryption certificate
+	if p.SrvMissing {
+		return vFail, "A5-missing-certs", 0, 0
+	}
 	// A8 callback errors
 	if p.CallbackErr == 1 && p.SrvCertSrc != 0 {
 		return vFail, "A8-callback-error", 0, 0
@@ -328,8 +354,8 @@ func (p *benignParams) model() (verdict int, rule string, vers uint16, suite uin
 }
 
 func (p *benignParams) String() string {
-	return fmt.Sprintf("smode=%d cgm=%v peer=%d csuites=%x ssuites=%x prefsrv=%v cver=[%x,%x] sver=[%x,%x] auth=%d ccert=%d cas=%v ssrc=%d csrc=%d tick=%v dyn=%v skey=%d cberr=%d cverify=%d chain=%d",
-		p.SMode, p.CGM, p.Peer, p.CSuites, p.SSuites, p.PreferServer, p.CMin, p.CMax, p.SMin, p.SMax, p.ClientAuth, p.ClientCert, p.SrvClientCAs, p.SrvCertSrc, p.CliCertSrc, p.Tickets, p.DynOff, p.SrvKey, p.CallbackErr, p.CVerify, p.SrvChain)
+	return fmt.Sprintf("smode=%d cgm=%v peer=%d csuites=%x ssuites=%x prefsrv=%v cver=[%x,%x] sver=[%x,%x] auth=%d ccert=%d cas=%v ssrc=%d csrc=%d tick=%v dyn=%v skey=%d cberr=%d cverify=%d chain=%d missing=%v",
+		p.SMode, p.CGM, p.Peer, p.CSuites, p.SSuites, p.PreferServer, p.CMin, p.CMax, p.SMin, p.SMax, p.ClientAuth, p.ClientCert, p.SrvClientCAs, p.SrvCertSrc, p.CliCertSrc, p.Tickets, p.DynOff, p.SrvKey, p.CallbackErr, p.CVerify, p.SrvChain, p.SrvMissing)
 }
 
 // serverConfig builds the gmtls server configuration.
@@ -448,6 +474,10 @@ func (p *benignParams) serverConfig(s *simkit.Sim, ent *simkit.Stream, res *endR
 		} else {
 			certs(cfg)
 		}
+	}
+	if p.SrvMissing {
+		cfg.Certificates = []gmtls.Certificate{sign}
+		cfg.GetCertificate, cfg.GetKECertificate, cfg.GetConfigForClient = nil, nil, nil
 	}
 	return cfg
 }
